@@ -80,6 +80,29 @@ type Cfg struct {
 	Markets   []MarketCfg `json:"markets"`
 	MinBorrow string      `json:"min_borrow"`
 	Prices    []string    `json:"prices"` // initial prices (Dec strings)
+	// Spot[d] = the denom whose pricefeed market ("<denom>:usd") is the SpotMarketID of money market d
+	// (absent = every money market has its own spot market).  Denoms that share a spot market always
+	// have the same price; a price change of the shared market is one "price" operation per denom
+	// (the model keeps one price per denom), generated back to back.
+	Spot []int `json:"spot,omitempty"`
+}
+
+func (c Cfg) spot(d int) int {
+	if d < len(c.Spot) {
+		return c.Spot[d]
+	}
+	return d
+}
+
+// sharers lists the money-market denoms priced by the same spot market as d (d included)
+func (c Cfg) sharers(d int) []int {
+	var out []int
+	for x := 0; x < nMkt; x++ {
+		if c.spot(x) == c.spot(d) {
+			out = append(out, x)
+		}
+	}
+	return out
 }
 
 type Hist struct {
@@ -104,6 +127,10 @@ type world struct {
 	dirty   bool         // params changed since the last successful begin block
 	prevForce     []*MarketCfg // the params in force before the last successful begin block
 	keeperChanged bool         // some market's keeper share alone was changed by governance
+	opSeq         int          // operations executed so far (stamp of statCache)
+	statSeq       int
+	statCache     []int
+	overCause     []string // per user: what took the position over its limit (counters only)
 }
 
 func dec(s string) sdk.Dec { return sdk.MustNewDecFromStr(s) }
@@ -116,10 +143,10 @@ func bigOf(s string) *big.Int {
 	return x
 }
 
-func mkMarket(d int, m MarketCfg) hardtypes.MoneyMarket {
+func mkMarket(cfg Cfg, d int, m MarketCfg) hardtypes.MoneyMarket {
 	return hardtypes.NewMoneyMarket(denoms[d],
 		hardtypes.NewBorrowLimit(m.HasMax, dec(m.Max), dec(m.LTV)),
-		denoms[d]+":usd", sdkmath.NewIntFromBigInt(bigOf(m.CF)),
+		denoms[cfg.spot(d)]+":usd", sdkmath.NewIntFromBigInt(bigOf(m.CF)),
 		hardtypes.NewInterestRateModel(dec(m.Base), dec(m.Mult), dec(m.Kink), dec(m.Jump)),
 		dec(m.Reserve), dec(m.Keeper))
 }
@@ -159,7 +186,7 @@ func setup(cfg Cfg) *world {
 	var pms []pftypes.Market
 	for d := 0; d < nMkt; d++ {
 		m := cfg.Markets[d]
-		mms = append(mms, mkMarket(d, m))
+		mms = append(mms, mkMarket(cfg, d, m))
 		pms = append(pms, pftypes.NewMarket(denoms[d]+":usd", denoms[d], "usd", []sdk.AccAddress{}, true))
 	}
 	hgs := hardtypes.NewGenesisState(hardtypes.NewParams(mms, dec(cfg.MinBorrow)),
@@ -176,20 +203,26 @@ func setup(cfg Cfg) *world {
 	w.addrs = append(w.addrs, ak.GetModuleAccount(w.ctx, "hard").GetAddress(), ak.GetModuleAccount(w.ctx, "auction").GetAddress())
 	for d := 0; d < nMkt; d++ {
 		w.cf = append(w.cf, bigOf(cfg.Markets[d].CF))
-		w.setPrice(w.ctx, d, dec(cfg.Prices[d]))
+		if cfg.spot(d) == d {
+			w.setPrice(w.ctx, d, dec(cfg.Prices[d]))
+		}
 		m := cfg.Markets[d]
 		w.cur = append(w.cur, &m)
 	}
 	w.inForce = copyMarkets(w.cur)
+	w.statSeq = -1
+	w.overCause = make([]string, nU)
 	return w
 }
 
+// setPrice sets the price of the spot market of money market d
 func (w *world) setPrice(ctx sdk.Context, d int, p sdk.Dec) {
-	if _, err := w.pk.SetPrice(ctx, sdk.AccAddress{}, denoms[d]+":usd", p, time.Date(2200, 1, 1, 0, 0, 0, 0, time.UTC)); err != nil {
+	id := denoms[w.cfg.spot(d)] + ":usd"
+	if _, err := w.pk.SetPrice(ctx, sdk.AccAddress{}, id, p, time.Date(2200, 1, 1, 0, 0, 0, 0, time.UTC)); err != nil {
 		panic(err)
 	}
 	// with a zero price the current price is stored and GetCurrentPrice reports "no valid price"
-	_ = w.pk.SetCurrentPrices(ctx, denoms[d]+":usd")
+	_ = w.pk.SetCurrentPrices(ctx, id)
 }
 
 // ------------------------------------------------------------ snapshots
@@ -283,7 +316,7 @@ func (w *world) snap() *snap {
 	for d := 0; d < nD; d++ {
 		p := new(big.Int)
 		if d < nMkt {
-			if cp, err := w.pk.GetCurrentPrice(ctx, denoms[d]+":usd"); err == nil {
+			if cp, err := w.pk.GetCurrentPrice(ctx, denoms[w.cfg.spot(d)]+":usd"); err == nil {
 				p = cp.Price.BigInt()
 			}
 		}
@@ -384,7 +417,7 @@ func (w *world) oracleFactors(newTime time.Time) []*big.Int {
 				if w.cur[d] == nil {
 					return
 				}
-				mm = mkMarket(d, *w.cur[d])
+				mm = mkMarket(w.cfg, d, *w.cur[d])
 			}
 			apy, err := hardkeeper.CalculateBorrowRate(mm.InterestRateModel, sdk.NewDecFromInt(cash), sdk.NewDecFromInt(borrowed), sdk.NewDecFromInt(tr.AmountOf(denoms[d])))
 			if err != nil {
@@ -403,6 +436,7 @@ func (w *world) oracleFactors(newTime time.Time) []*big.Int {
 }
 
 func (w *world) exec(op *Op) (Class, error) {
+	w.opSeq++
 	ms := hardkeeper.NewMsgServerImpl(w.hk)
 	switch op.Kind {
 	case "block":
@@ -429,7 +463,7 @@ func (w *world) exec(op *Op) (Class, error) {
 		var mms hardtypes.MoneyMarkets
 		for d := 0; d < nMkt; d++ {
 			if op.Mk[d] != nil {
-				mms = append(mms, mkMarket(d, *op.Mk[d]))
+				mms = append(mms, mkMarket(w.cfg, d, *op.Mk[d]))
 			}
 		}
 		cls, err := Atomically(w.ctx, func(ctx sdk.Context) error {
@@ -687,6 +721,12 @@ func run(seed uint64, idx, n int, cfg *Cfg, ops []Op, cnt *Counters) (out runOut
 	out.splits = map[string]bool{}
 	prev := w.snap()
 	header := w.coqEnvState(prev)
+	countCfg(usedCfg, func(k string) {
+		out.splits[k] = true
+		if cnt != nil {
+			cnt.Inc("split:" + k)
+		}
+	})
 	var steps []string
 	for i := 0; i < n; i++ {
 		var op Op
@@ -721,8 +761,11 @@ func run(seed uint64, idx, n int, cfg *Cfg, ops []Op, cnt *Counters) (out runOut
 				}
 			}
 			out.notes = append(out.notes, op.Kind+": "+m)
+			if os.Getenv("C08_DEBUG") != "" {
+				fmt.Fprintf(os.Stderr, "panic in history %d step %d: %s: %s\n", idx, i, op.Kind, m)
+			}
 		}
-		w.countSplits(op, cls, pre, prev, after, out.splits, cnt)
+		w.countSplits(op, cls, err, pre, prev, after, out.splits, cnt)
 		steps = append(steps, fmt.Sprintf("(%s,\n    %s)", coqOp(op, w.now), coqObs(cls, prev, after)))
 		if pred, sig, detail := w.monitor(op, cls, err, pre, prev, after); pred != "" && out.fail == nil {
 			out.fail = &Failure{History: idx, Step: i, Predicate: pred, Signature: sig, Detail: detail}
@@ -741,7 +784,7 @@ func runC08(o Opts) (*Result, error) {
 		n = defaultL
 	}
 	res := &Result{Property: "C08", Seed: o.Seed,
-		Rule: "histories of " + fmt.Sprint(n) + " hard-module operations (msg server calls, price changes, begin blocks) generated from splitmix64(seed, history index) on a fresh app.TestApp with a per-history money-market parameter set; a history is non-trivial when it contains a successful borrow or withdrawal at the LTV boundary, a successful liquidation, or an interest accrual with a non-zero interest amount; distinct by hash of configuration and operation list"}
+		Rule: "histories of " + fmt.Sprint(n) + " hard-module operations (msg server calls, price changes, begin blocks) generated from splitmix64(seed, history index) on a fresh app.TestApp with a per-history money-market parameter set drawn over the whole validated parameter range (wide.go) and a scripted prefix (bad debt, split valuation, reserve borrow, market re-add, keeper-share change, over-limit position with zero-LTV collateral, exact synced amounts, global borrow limit, minimum borrow) chosen independently of it; a history is non-trivial when it contains a successful borrow or withdrawal at the LTV boundary, a successful liquidation, or an interest accrual with a non-zero interest amount; distinct by hash of configuration and operation list"}
 	cnt := NewCounters()
 
 	if o.Replay != "" {
